@@ -20,7 +20,11 @@ SKIP = ("write", "writeln", "writenl", "debugprint", "nl/", "trace", "notrace", 
 
 ARGS = ["X", "Y", "_", "a", "foo", "'A b'", "[]", "0", "1", "-3", "2.5", "1.0e10", "\"str\"", "[a,b]", "[1,2,3]", "[a|T]", "[X]",
         "f(a)", "f(X)", "g(1,2)", "p", "p(1)", "p(X)", "b", "(a,b)", "(a;b)", "\\+a", "1+2", "X+1", "a+1", "f", "3-1",
-        "[p(1),p(2)]", "0.5::b", "'[]'", "-", "1/0", "foo(bar(baz))", "[[1],[2]]", "10**400", "true", "fail"]
+        "[p(1),p(2)]", "0.5::b", "'[]'", "-", "1/0", "foo(bar(baz))", "[[1],[2]]", "10**400", "true", "fail",
+        "g(a,b,c)", "h(1,2,3,4)", "f(g(a,b,c))", "-1.0e-10", "(0.3-0.1-0.2)", "1.0e-10", "'-'(1)", "-(-(1))", "f(_,_)", "f(X,X)"]
+
+COMPOUNDS = ["f(a)", "f(X)", "g(1,2)", "g(a,b,c)", "h(1,2,3,4)", "f(g(a,b,c))", "p(1)", "[a,b]", "a+1", "k(f(a),g(a,b,c))",
+             "k(g(a,b,c),f(a))", "f(h(1,2,3,4))"]
 
 BASE = "a.\nb.\n0.5::c.\np(1).\np(2).\n0.3::r(1).\nfoo(bar(baz)).\n"
 
@@ -73,6 +77,9 @@ def builtin_programs(rng, names, per):
         ar = int(ar)
         for _ in range(per):
             args = [rng.choice(ARGS) for _ in range(ar)]
+            if ar >= 2 and rng.random() < 0.35:
+                # all-compound calls of different widths (comparison, unification and term inspection on wide terms)
+                args = [rng.choice(COMPOUNDS) if rng.random() < 0.7 else rng.choice(["X", "_", "O"]) for _ in range(ar)]
             if name[0].isalpha():
                 goal = name if ar == 0 else "%s(%s)" % (name, ",".join(args))
             elif ar == 2:
@@ -94,7 +101,9 @@ DAMAGE = [
     lambda r: "q :- undefined_pred(%s).\nquery(q).\n" % r.choice(ARGS),
     lambda r: "0.5::nonground(X).\nquery(nonground(1)).\n",
     lambda r: "0.5::h(X) :- true.\nquery(h(_)).\n",
-    lambda r: "%s::w.\nquery(w).\n" % r.choice(["1.5", "-0.2", "foo", "X", "\"s\"", "1/0", "[a]", "f(1)", "nan", "2*0.7"]),
+    lambda r: "%s::w.\nquery(w).\n" % r.choice(["1.5", "-0.2", "foo", "X", "\"s\"", "1/0", "[a]", "f(1)", "nan", "2*0.7",
+                                                 "-0.0000000001", "(0.3-0.1-0.2)", "-1.0e-12", "1.0000000001", "(1+1.0e-10)", "-0.0",
+                                                 "1.0e-320", "(0.1+0.2-0.3)", "inf", "-1.0e-9", "(1.0e-9 - 2.0e-9)"]),
     lambda r: "q :- X is Y + 1.\nquery(q).\n",
     lambda r: "q :- X is foo + 1.\nquery(q).\n",
     lambda r: "q :- X > 1.\nquery(q).\n",
@@ -127,6 +136,20 @@ DAMAGE = [
     lambda r: "evidence(%s).\nquery(a).\n" % r.choice(["1 =:= sqrt(-1)", "X is 1/0", "1 < foo", "2 > 1", "1 > 2", "a = b"]),
     lambda r: "q :- subquery(%s, P).\nquery(q).\n" % r.choice(["X is 1 mod 0", "1 < foo", "c", "X is 1/0", "2 > 1"]),
     lambda r: "q :- findall(X, %s, L).\nquery(q).\n" % r.choice(["X is 1/0", "1 < foo", "(c, X is foo)"]),
+    # (round 4, from the clean-checkout observations of the seeding sub-agents)
+    lambda r: ":- use_module(library(lists), %s).\nquery(a).\n" % r.choice(
+        ["foo", "except(foo)", "[foo]", "X", "[X]", "[append/3]", "[append/3 as app]", "except([append/3])", "[a|T]", "1", "[1]",
+         "[nosuch/2]", "\"s\""]),
+    lambda r: "%s(%s).\nquery(a).\n" % (r.choice(["query", "evidence"]), r.choice(
+        ["\\+ X", "not(X)", "\\+ \\+ X", "\\+ 1", "\\+ (a, b)", "\\+ \\+ a", "\\+ f(X)", "not(not(X))"])),
+    lambda r: "q(T) :- %s =.. T.\nquery(q(_)).\n" % r.choice(
+        ["(a, b)", "(a :- b)", "(\\+ a)", "(a ; b)", "(0.5::a)", "[a]", "\"s\"", "1.5", "(a -> b)", "not(a)"]),
+    lambda r: "q(X) :- subquery(a, X, %s, %s, %s).\nquery(q(_)).\n" % (
+        r.choice(["[]", "[a]", "X", "foo"]), r.choice(["\"nope\"", "\"prob\"", "\"logprob\"", "foo", "X", "1"]),
+        r.choice(["\"nope\"", "\"ddnnf\"", "foo", "X", "1"])),
+    lambda r: "d(1).\np :- %s(d(X), qq(X)).\nqq(X) :- a.\nqq(X) :- p.\nquery(p).\n" % r.choice(["forall", "findall", "\\+ maplist"]),
+    lambda r: "%s\nquery(a).\n" % r.choice([":-.", "( ).", "a :- ( ).", "avg<X>.", "Y :: avg<X>.", "p().", "a :- p().", "?-.", "::.",
+                                              "0.5::.", ";.", "a :- ;.", "->.", "a :- (->)."]),
 ]
 
 
@@ -134,11 +157,11 @@ def run(pid, tier, seed):
     from bounded import c17
     rng = random.Random(seed * 31 + 27)
     names = builtins()
-    per = 120 if tier == "thorough" else 25
+    per = 200 if tier == "thorough" else 80
     texts = builtin_programs(rng, names, per)
     nb = len(texts)
     fam = progs.programs(seed * 7907 + 27, 400 if tier == "thorough" else 60, max_choices=8)
-    nd = 12000 if tier == "thorough" else 2000
+    nd = 12000 if tier == "thorough" else 3000
     for _ in range(nd):
         base = progs.render(rng.choice(fam)) if rng.random() < 0.6 else BASE
         texts.append(base + rng.choice(DAMAGE)(rng))
